@@ -7030,6 +7030,7 @@ size_t ZSTD_compressSequences(ZSTD_CCtx* cctx,
     DEBUGLOG(4, "ZSTD_compressSequences (dstCapacity=%zu)", dstCapacity);
     assert(cctx != NULL);
     FORWARD_IF_ERROR(ZSTD_CCtx_init_compressStream2(cctx, ZSTD_e_end, srcSize), "CCtx initialization failed");
+    RETURN_ERROR_IF(cctx->appliedParams.nbWorkers >= 1, parameter_unsupported, "ZSTD_compressSequences() does not support multithreading");
     /* Begin writing output, starting with frame header */
     frameHeaderSize = ZSTD_writeFrameHeader(op, dstCapacity, &cctx->appliedParams, srcSize, cctx->dictID);
     FORWARD_IF_ERROR(frameHeaderSize, "Header Write failed");
